@@ -101,6 +101,17 @@ def check(run):
         st, failed, eng = D.verify_function(run, relf, qual, (lambda qual=qual, frag=frag, lists=lists, ints=ints: c_generator.line_writer_contract(qual, frag, lists, ints=ints)),
                                             timeout_ms=10000, tag="writer %s" % frag.rstrip("_"), note="region: the `with open(..., 'w')` block writing %s" % " + ".join(lists))
         failed_all += failed
+    # canonicalisation region of duplicate_checker.main: originals keep their position, every extra (rewritten) tree is written to all_equations under its own string and then
+    # enters simplification under the canonical string of the tree it was rewritten from
+    from contracts import c_dupcheck
+    for we in (True, False):
+        st, failed, eng = D.verify_function(run, "generation/duplicate_checker.py", "main", (lambda we=we: c_dupcheck.extras_region_contract(we)), timeout_ms=10000,
+                                            tag="canonicalisation, %s" % ("with extra trees" if we else "no extra tree"),
+                                            note="region: get_match_indexes call .. `all_fun[-nextra:] = [all_fun[f] for f in extra_orig]`; initial_sympify through its elementwise "
+                                                 "contract, get_match_indexes through its verified contract; the writer of all_equations in between is a snapshot point (verified separately)")
+        failed_all += failed
+    if D.canary(run, "generation/duplicate_checker.py", "main", (lambda: c_dupcheck.extras_region_contract(True))) is False:
+        raise RuntimeError("canary verified: engine vacuous on the canonicalisation region")
     # the literal substitution tables of sympy_simplify: every row is sound (same family of curves / the recorded map reproduces the replacement)
     tfailed, tunsupported = D.subst_tables(run)
     lfailed0 = D.prove_lemmas(run, "do_sympy: composition with get_unique_indexes", c_dosympy.composition_lemma(), timeout_ms=20000)
